@@ -28,7 +28,7 @@ class Raised(Exception):
 
 
 _METHODS = {'join', 'startswith', 'endswith', 'strip', 'lstrip', 'rstrip', 'split', 'rsplit', 'splitlines', 'decode', 'encode', 'lower', 'upper', 'replace',
-            'match', 'search', 'fullmatch', 'append', 'get', 'keys', 'values', 'items', 'index', 'count', 'isdigit'}
+            'match', 'search', 'fullmatch', 'append', 'get', 'keys', 'values', 'items', 'index', 'count', 'isdigit', 'pop', 'setdefault', 'update', 'copy'}
 
 
 def call(fn, args, what='helper', fuel=2000, globs=None, _left=None):
@@ -81,6 +81,8 @@ def call(fn, args, what='helper', fuel=2000, globs=None, _left=None):
             return tuple(ev(x) for x in e.elts)
         if isinstance(e, ast.List):
             return [ev(x) for x in e.elts]
+        if isinstance(e, ast.Dict) and all(k is not None for k in e.keys):
+            return {ev(k): ev(v) for k, v in zip(e.keys, e.values)}
         if isinstance(e, ast.UnaryOp):
             v = ev(e.operand)
             if isinstance(e.op, ast.Not):
@@ -144,6 +146,8 @@ def call(fn, args, what='helper', fuel=2000, globs=None, _left=None):
                 return (tuple if d == 'tuple' else list)(*a)
             if d == 'str' and len(a) == 1:
                 return str(a[0])
+            if d == 'dict' and len(a) <= 1 and not e.keywords:
+                return dict(*a)
             if isinstance(e.func, ast.Name) and isinstance(globs.get(e.func.id), ast.AST):
                 flat = []
                 for x in e.args:
@@ -188,6 +192,16 @@ def call(fn, args, what='helper', fuel=2000, globs=None, _left=None):
                 continue
             if isinstance(st, ast.Return):
                 raise _Ret(ev(st.value) if st.value is not None else None)
+            if isinstance(st, ast.Expr) and isinstance(st.value, ast.Call):
+                ev(st.value)
+                continue
+            if isinstance(st, ast.Delete) and all(isinstance(t, ast.Subscript) and not isinstance(t.slice, ast.Slice) for t in st.targets):
+                for t in st.targets:
+                    try:
+                        del ev(t.value)[ev(t.slice)]
+                    except (KeyError, IndexError, TypeError) as ex:
+                        raise Raised('%s: %s' % (type(ex).__name__, ex))
+                continue
             if isinstance(st, ast.Break):
                 raise _Break()
             if isinstance(st, ast.Continue):
